@@ -957,10 +957,13 @@ def check_C11(case):
             return False, f"save_operator / load_operator changed {op}"
         others = [widen(rand_sum(r, nn)) for _ in range(r.randint(0, 3))]
         lst = [op if isinstance(op, PauliSum) else PauliSum([op])] + others
+        if r.random() < 0.5 and op.terms:        # a neighbour that is ALMOST the same operator (finite-difference copies): same strings, coefficients 3e-7 .. 1e-6 apart
+            d_ = r.choice([3e-7, -2e-7, 4e-7, 1e-6])
+            lst.insert(r.randrange(len(lst) + 1), PauliSum([t.copy(new_coefficient=t.coefficient + d_) for t in op.terms]))
         r.shuffle(lst)
         save_operator_set(lst, f)
         ld = load_operator_set(f)
-        if len(ld) != len(lst) or not all(np.allclose(dense(a), dense(b), atol=1e-8) for a, b in zip(lst, ld)):
+        if len(ld) != len(lst) or not all(np.allclose(dense(a), dense(b), atol=1e-8, rtol=0) for a, b in zip(lst, ld)):
             return False, f"save_operator_set / load_operator_set changed the list {lst}"
     txt = str(op)
     parsed = PauliSum(txt) if op.terms else None
